@@ -1,9 +1,10 @@
 """Glue shared by the property modules."""
 from __future__ import annotations
 
+import collections
 import json
 
-from mc import alpha
+from mc import alpha, core
 from mc.core import jsonable
 
 _DUMPS = json.JSONEncoder(sort_keys=True, separators=(",", ":"), allow_nan=False).encode
@@ -16,6 +17,47 @@ def cid(case):
         return _DUMPS(jsonable(case))
 
 
+_CLASS = {}   # signature -> +k: reproduced k times from a fresh state / -k: k times only after earlier cases
+_RECENT = collections.deque(maxlen=48)   # the cases this worker process executed last (for history-dependent failures)
+
+
+def confirm(check_case, case, vs):
+    """A violation seen in a long-lived worker is re-executed from the library's initial module state.  If it only
+    exists after earlier cases of this process (a memo / pool / registry inside the library that outlives a call), the
+    shortest recent history that reproduces it is recorded with the case, so that the replay is deterministic."""
+    sigs = {v["signature"] for v in vs}
+    if all(_CLASS.get(s, 0) >= 3 for s in sigs):
+        return vs, case            # these signatures reproduced from a fresh state several times already
+    if all(_CLASS.get(s, 0) <= -3 for s in sigs):
+        return [], case            # already recorded (with its history) several times
+
+    def again(history):
+        core.fresh_modules()
+        for h in history:
+            try:
+                check_case(h)
+            except Exception:  # noqa: BLE001
+                pass
+        try:
+            return [v for v in check_case(case)[0] if v["signature"] in sigs]
+        except Exception:  # noqa: BLE001
+            return []
+
+    if again([]):
+        for s in sigs:
+            _CLASS[s] = max(_CLASS.get(s, 0), 0) + 1
+        return vs, case
+    for s in sigs:
+        _CLASS[s] = min(_CLASS.get(s, 0), 0) - 1
+    recent = [c for c in _RECENT if isinstance(c, dict)]
+    for hist in [[c] for c in reversed(recent)] + [recent]:
+        got = again(hist)
+        if got:
+            out = [dict(v, signature=v["signature"] + core.HIST_TAG, what=v["what"] + " (only after the earlier call(s) recorded in _history)") for v in got]
+            return out, dict(case, _history=hist)
+    return vs, case   # not reproducible: reported as a harness error by the final replay
+
+
 def run_cases(acc, cases, check_case, edges=1):
     """Execute + judge every case of an iterable; check_case(case) ->
     (violations, nontrivial, observation, n_not_judged[, n_exec])."""
@@ -26,8 +68,12 @@ def run_cases(acc, cases, check_case, edges=1):
         acc.visit(cid(case), nt, obs, edges=edges, evals=nexec, sample=case)
         if sk:
             acc.skip(sk)
+        rec = case
+        if vs and isinstance(case, dict):
+            vs, rec = confirm(check_case, case, vs)
         for v in vs:
-            acc.violation(v["signature"], v["what"], case, v.get("expected"), v.get("observed"), size=v.get("size"))
+            acc.violation(v["signature"], v["what"], rec, v.get("expected"), v.get("observed"), size=v.get("size"))
+        _RECENT.append(case)
 
 
 def V(signature, what, expected=None, observed=None, size=None):
